@@ -13,6 +13,23 @@ Notation val := (val A).
 
 
 
+Lemma run_indices_from s b c :
+  map (fun i => (Z.of_nat s + Z.of_nat i)%Z) (seq b c) = map Z.of_nat (seq (s + b) c).
+Proof.
+  revert b. induction c as [|c IH]; intros b; [reflexivity|]. cbn [seq map]. f_equal.
+  - lia.
+  - rewrite IH. replace (s + S b) with (S (s + b)) by lia. reflexivity.
+Qed.
+
+Lemma run_indices_nat s c : run_indices (Z.of_nat s) (Z.of_nat c) = map Z.of_nat (seq s c).
+Proof. unfold run_indices. rewrite Nat2Z.id, run_indices_from, Nat.add_0_r. reflexivity. Qed.
+
+Lemma idx_of_z_nat n : idx_of_z (Z.of_nat n) = Some (Some n).
+Proof. unfold idx_of_z. destruct (Z.eqb_spec (Z.of_nat n) (-1)); [lia|]. rewrite z_index_of_nat. reflexivity. Qed.
+
+Lemma sequence_run l : sequence (map idx_of_z (map Z.of_nat l)) = Some (map Some l).
+Proof. induction l as [|a t IH]; [reflexivity|]. cbn [map sequence]. rewrite idx_of_z_nat, IH. reflexivity. Qed.
+
 Lemma vuncompress_run r rest :
   run_ok r ->
   vuncompress (vencode_run r :: rest) =
@@ -25,9 +42,8 @@ Proof.
   destruct r as [|s c]; cbn [vencode_run].
   - unfold vnum. rewrite (as_num_num O L). reflexivity.
   - simpl in Hok. destruct (Nat.eqb_spec c 1) as [->|Hc].
-    + unfold vnat, vnum. rewrite (as_num_num O L).
-      destruct (Z.eqb_spec (Z.of_nat s) (-1)); [lia|]. rewrite z_index_of_nat. reflexivity.
-    + unfold vnat, vnum. cbn [vas_num]. rewrite !(as_num_num O L), !z_index_of_nat. reflexivity.
+    + unfold vnat, vnum. rewrite (as_num_num O L), idx_of_z_nat. reflexivity.
+    + unfold vnat, vnum. cbn [vas_num]. rewrite !(as_num_num O L), run_indices_nat, sequence_run. reflexivity.
 Qed.
 
 Lemma vuncompress_runs_cons i acc :
